@@ -65,7 +65,18 @@ func genRoundTripFile(rng *lib.Rand, idx uint64, noSources bool, longStrings ...
 			o.FileType, o.PhasedGlobal, o.PhasedMin, o.PhasedSpan = 4, 21, 66000, 5000
 		}
 	}
-	return lib.GenFile(rng, o), ft, arch
+	f := lib.GenFile(rng, o)
+	if f != nil && idx%5 == 2 {
+		// a File that has been through Encode or Decode before and whose header was then edited in
+		// place: the fields Encode fills in (data size, header CRC) hold leftovers that no longer
+		// match the other header fields
+		f.Header.CRC = uint16(rng.U64())
+		f.Header.DataSize = uint32(rng.U64())
+		if rng.Chance(1, 2) {
+			f.Header.ProfileVersion = uint16(rng.Intn(3000))
+		}
+	}
+	return f, ft, arch
 }
 
 func countSet(ct *lib.Content) (msgs int) {
